@@ -2,6 +2,7 @@
 //! every DAG shape up to a node bound can be enumerated; the oracle is a naive recursive walker.
 
 use crate::rng::Rng;
+use std::sync::Arc;
 use crate::runner::{violated, Case, Ctx, Outcome, Plan};
 use simplicity::dag::{Dag, DagLike, InternalSharing, NoSharing, SharingTracker};
 use std::collections::HashMap;
@@ -532,15 +533,40 @@ fn lib_case(rng: &mut Rng, case: &mut Case) -> Outcome {
                     }
                     case.count("lib.redeem.unfolded");
                 }
+                // is_shared_as: true exactly when iterating under the policy meets the same node objects, in the same
+                // order, as iterating by pointer identity
+                let ptrs = |it: Vec<simplicity::dag::PostOrderIterItem<&simplicity::RedeemNode>>| it.into_iter().map(|d| d.node as *const _ as usize).collect::<Vec<_>>();
+                let by_ptr = ptrs(r.as_ref().post_order_iter::<InternalSharing>().collect());
+                let by_max = ptrs(r.as_ref().post_order_iter::<MaxSharing<Redeem>>().collect());
                 let shared = r.as_ref().is_shared_as::<MaxSharing<Redeem>>();
-                let n_internal = r.as_ref().post_order_iter::<InternalSharing>().count();
-                let n_max = r.as_ref().post_order_iter::<MaxSharing<Redeem>>().count();
-                if shared != (n_internal == n_max) {
-                    return violated("lib-is-shared-as", format!("is_shared_as::<MaxSharing> = {} but {} objects vs {} identity classes ; program {}", shared, n_internal, n_max, case.desc));
+                if shared != (by_ptr == by_max) {
+                    return violated("lib-is-shared-as:redeem/max", format!("is_shared_as::<MaxSharing> = {} but the two iterations {} ({} vs {} items) ; program {}", shared, if by_ptr == by_max { "agree" } else { "differ" }, by_ptr.len(), by_max.len(), case.desc));
+                }
+                if tree <= 20_000 {
+                    let is_tree = r.as_ref().is_shared_as::<NoSharing>();
+                    if is_tree != (tree == by_ptr.len()) {
+                        return violated("lib-is-shared-as:redeem/none", format!("is_shared_as::<NoSharing> = {} but the DAG has {} objects and unfolds to {} ; program {}", is_tree, by_ptr.len(), tree, case.desc));
+                    }
+                }
+                if !r.as_ref().is_shared_as::<InternalSharing>() {
+                    return violated("lib-is-shared-as:redeem/internal", format!("a DAG is not shared as its own pointer structure ; program {}", case.desc));
+                }
+                // the owned (Arc) view of the same DAG yields the same nodes with the same child indices as the borrowed view
+                for (name, a, b) in [
+                    ("max", Arc::clone(&r).post_order_iter::<MaxSharing<Redeem>>().map(|d| (Arc::as_ptr(&d.node) as usize, d.left_index, d.right_index, d.index)).collect::<Vec<_>>(), got(r.as_ref().post_order_iter::<MaxSharing<Redeem>>().collect())),
+                    ("internal", Arc::clone(&r).post_order_iter::<InternalSharing>().map(|d| (Arc::as_ptr(&d.node) as usize, d.left_index, d.right_index, d.index)).collect::<Vec<_>>(), got(r.as_ref().post_order_iter::<InternalSharing>().collect())),
+                ] {
+                    if a != b {
+                        let i = a.iter().zip(b.iter()).position(|(x, y)| x != y).unwrap_or(a.len().min(b.len()));
+                        return violated(format!("lib-arc-view:redeem/{}", name), format!("iterating Arc<Node> and &Node differ at item {}: {:?} vs {:?} ; program {}", i, a.get(i), b.get(i), case.desc));
+                    }
                 }
                 case.count("lib.redeem");
-                if n_internal != n_max {
+                if by_ptr != by_max {
                     case.count("lib.redeem.objects-exceed-classes");
+                }
+                if dag.nodes.iter().any(|o| matches!(o, crate::ast::Op::Disconnect(a, Some(b)) if a != b)) {
+                    case.count("lib.redeem.with-disconnect");
                 }
             }
         }
@@ -552,6 +578,20 @@ fn lib_case(rng: &mut Rng, case: &mut Case) -> Outcome {
         .and_then(|_| check("commit/internal", got(c.as_ref().post_order_iter::<InternalSharing>().collect()), lib_reference(c.as_ref(), |n| Some(n as *const _ as usize))));
         if let Err((s, d)) = res {
             return violated(s, format!("{} ; program {}", d, case.desc));
+        }
+        let ptrs = |it: Vec<simplicity::dag::PostOrderIterItem<&simplicity::CommitNode>>| it.into_iter().map(|d| d.node as *const _ as usize).collect::<Vec<_>>();
+        let by_ptr = ptrs(c.as_ref().post_order_iter::<InternalSharing>().collect());
+        let by_max = ptrs(c.as_ref().post_order_iter::<MaxSharing<Commit>>().collect());
+        let shared = c.as_ref().is_shared_as::<MaxSharing<Commit>>();
+        if shared != (by_ptr == by_max) {
+            return violated("lib-is-shared-as:commit/max", format!("is_shared_as::<MaxSharing> = {} but the two iterations {} ({} vs {} items) ; program {}", shared, if by_ptr == by_max { "agree" } else { "differ" }, by_ptr.len(), by_max.len(), case.desc));
+        }
+        if by_ptr.len() == by_max.len() && by_ptr != by_max {
+            case.count("lib.commit.same-count-different-sharing");
+        }
+        let a = Arc::clone(&c).post_order_iter::<MaxSharing<Commit>>().map(|d| (Arc::as_ptr(&d.node) as usize, d.left_index, d.right_index, d.index)).collect::<Vec<_>>();
+        if a != got(c.as_ref().post_order_iter::<MaxSharing<Commit>>().collect()) {
+            return violated("lib-arc-view:commit/max", format!("iterating Arc<Node> and &Node differ ; program {}", case.desc));
         }
         case.count("lib.commit");
     }
